@@ -140,6 +140,33 @@ class ScenarioWorld:
         mgr, sname = key
         sh = self.shadow[key]
         eqs = T.ELEMENTS[sh["template"]]
+        # every third observation asks for the scenario TOGETHER with a sibling (one call, one frame over the union of
+        # the two time grids): its own column must carry exactly its own grid, whatever run specs the sibling has
+        self.obs_count = getattr(self, "obs_count", 0) + 1
+        sibs = [k for k in sorted(self.shadow) if k[0] == mgr and k != key and k not in getattr(self, "session", set())
+                and self.shadow[k]["template"] == sh["template"]]
+        if sibs and self.obs_count % 3 == 0:
+            sib = sibs[(self.obs_count // 3) % len(sibs)]
+            names = [sname, sib[1]] if (self.obs_count // 3) % 2 else [sib[1], sname]
+            df = self.bptk.run_scenarios(scenarios=names, scenario_managers=[mgr], equations=list(eqs), series_names={}, return_format="df")
+            if df is None:
+                return None
+            self.res.probe("observed_together_with_sibling")
+            if [self.shadow[sib][x] for x in ("start", "stop", "dt")] != [sh[x] for x in ("start", "stop", "dt")]:
+                self.res.probe("sibling_on_another_grid")
+            own = set(T.label(t) for t in T.grid(sh["start"], sh["stop"], sh["dt"]))
+            out = {}
+            pre = "%s_%s_" % (mgr, sname)
+            for c in df.columns:
+                if not c.startswith(pre):
+                    continue
+                col = {}
+                for t, v in df[c].to_dict().items():
+                    t = float(t)
+                    if t in own or v == v:      # outside its own grid the frame is padded with NaN; anything else is reported
+                        col[t] = v
+                out[c[len(pre):]] = col
+            return out
         df = self.bptk.run_scenarios(scenarios=[sname], scenario_managers=[mgr], equations=list(eqs), series_names={}, return_format="df")
         if df is None:
             return None
